@@ -25,7 +25,14 @@ ALL_READ = [ACC["MZ_ARRAY"], ACC["INTENSITY_ARRAY"], "MS:1000568", ACC["EXTERNAL
     + READ_SPECTRUM + READ_ARRAY
 NAMES = ["p", "pixel size (x)", "m/z array", "total ion current", "no combination", "max count of pixels x", "a-b_c.d", "x"]
 NOISE_VALUES = [None, None, "", "abc", "1.5e+06", "x y", "-3", "0", "true", "00000000-0000"]
+# large documents ("any number of spectra"): probability per generated case, and the range of the spectrum count
+LARGE_P = {"quick": 0.0004, "thorough": 0.0006}
+LARGE_MIN, LARGE_MAX = 1000, 3000
 SECT_TAGS = ["fileDescription", "softwareList", "instrumentConfigurationList", "dataProcessingList", "cvList", "sampleList"]
+
+
+def render_kinds(doc):
+    return [t for _, t in gen_imzml.render_lines(doc)]
 
 
 def ftok(v):
@@ -85,7 +92,11 @@ class C17(Prop):
             "exponent/signed text, image size present or absent, 1..3 scanSettings, extra param groups, extra cvParam/userParam/"
             "ref lines in every element (any accession the enclosing parser does not read), noise sections that repeat the read "
             "accessions, five cvParam attribute orders, four indentations, trailing blanks, array groups in either order, "
-            "32/64-bit and integer type declarations; the progress callback returns False at a random invocation or never. "
+            "32/64-bit and integer type declarations; the progress callback returns False at a random invocation or never; "
+            "large documents (feature `large-document`: 1000..3000 spectra of 1-2 peaks over a 30..90 pixel wide image in raster/column/"
+            "reverse/shuffled order, light per-spectrum noise, so that one <spectrum> block is far below 1/1024 of the file) with the "
+            "callback False at the first, a middle, the last, a random spectrum or never: one fixed document x these five callbacks in "
+            "every run, plus about 1 in 1700 (thorough; 1 in 2500 quick) generated cases. "
             "non-trivial = any of these layout-noise classes; distinct by canonical case hash")
     trusted = ["xml.etree.ElementTree and `re` behave as documented; the abstract-line tokenisation of the rendered text is validated "
                "only by this differential run (harness renders text, driver renders abstract lines from the same description)",
@@ -132,11 +143,40 @@ class C17(Prop):
         return [None, "%d" % int(v), "%.6f" % v, "%.6e" % v, "%E" % v, "-%.3e" % v, "+%d" % int(v), "%g" % v, "inf"][k]
 
     def generate(self, rng, tier):
+        # the large-document class is decided on a fork of the case PRNG, so every other case is drawn exactly as before
+        fork = random.Random()
+        fork.setstate(rng.getstate())
+        if fork.random() < LARGE_P[tier]:
+            return self.gen_doc(fork, tier, large=fork.randint(LARGE_MIN, LARGE_MAX))
+        return self.gen_doc(rng, tier)
+
+    def gen_doc(self, rng, tier, large=None):
+        """`large` = number of spectra of a large document (1000+ spectra of 1-2 peaks over a large image, light per-spectrum
+        noise so the document stays a few MB); None = the small classes"""
         imageable = rng.random() < 0.5
         nspec = rng.choice([1, 1, 2, 2, 3, 4, 7])
         mzdt, itdt = rng.choice(["f4", "f8"]), rng.choice(["f4", "f8"])
+        light = (lambda: rng.choice([0, 0, 0, 1])) if large is not None else (lambda: None)
         # ---- spectra
-        if imageable:
+        if large is not None:
+            nspec = large
+            X = rng.randint(30, 90)
+            Y = -(-nspec // X) + rng.randint(0, 4)
+            cells = [(x, y) for y in range(1, Y + 1) for x in range(1, X + 1)]      # raster order
+            order = rng.choice(["raster", "columns", "reverse", "shuffled"])
+            pos = rng.sample(cells, nspec) if order == "shuffled" else sorted(rng.sample(cells, nspec), key=lambda c: (c[1], c[0]))
+            if order == "columns":
+                pos.sort()
+            elif order == "reverse":
+                pos.reverse()
+            data = []
+            for _ in pos:
+                mz = sorted({rng.randint(6400, 9600) / 64 for _ in range(rng.randint(1, 2))})
+                data.append({"mz": mz, "it": [float(rng.randint(0, 500)) for _ in mz]})
+            mz_acc, it_acc = gen_imzml.DTYPE_ACC[mzdt], gen_imzml.DTYPE_ACC[itdt]
+            size = [str(X), str(Y)] if rng.random() < 0.7 else None
+            posn = [(str(x), str(y)) for x, y in pos]
+        elif imageable:
             X, Y = rng.randint(1, 3), rng.randint(1, 3)
             cells = [(x, y) for x in range(1, X + 1) for y in range(1, Y + 1)]
             pos = [rng.choice(cells) for _ in range(nspec)] if rng.random() < 0.2 else rng.sample(cells, min(nspec, len(cells)))
@@ -162,8 +202,8 @@ class C17(Prop):
             direct = [] if tic is None else [cv(ACC["TIC"], tic, self.sty(rng), "total ion current")]
             tail_has_tic = tic is not None and rng.random() < 0.15
             scan0 = self.mix(rng, [cv(ACC["POS_X"], x, self.sty(rng), "position x"), cv(ACC["POS_Y"], y, self.sty(rng), "position y")],
-                             self.noise(rng, avoid))
-            scans = [scan0] + [self.noise(rng, avoid) for _ in range(rng.choice([0, 0, 0, 1, 2]))]
+                             self.noise(rng, avoid, n=light()))
+            scans = [scan0] + [self.noise(rng, avoid, n=light()) for _ in range(rng.choice([0, 0, 0, 1, 2] if large is None else [0, 0, 0, 0, 1]))]
             arrays = []
             names = ["mzArray", "intensities"]
             if rng.random() < 0.3:
@@ -172,10 +212,10 @@ class C17(Prop):
                 names.append("extra")
             for nm in names:
                 arrays.append({"name": nm, "offset": self.num(rng, big=rng.random() < 0.1), "length": self.num(rng),
-                               "style": self.sty(rng), "extra": self.noise(rng, READ_ARRAY, refs_ok=False),
+                               "style": self.sty(rng), "extra": self.noise(rng, READ_ARRAY, n=light(), refs_ok=False),
                                "shuffle": rng.randint(0, 10 ** 6) if rng.random() < 0.6 else None})
-            spectra.append({"items": self.mix(rng, [] if tail_has_tic else direct, self.noise(rng, avoid)),
-                            "scanlist": self.noise(rng, avoid), "scans": scans, "arrays": arrays,
+            spectra.append({"items": self.mix(rng, [] if tail_has_tic else direct, self.noise(rng, avoid, n=light())),
+                            "scanlist": self.noise(rng, avoid, n=light()), "scans": scans, "arrays": arrays,
                             "tail": self.mix(rng, direct if tail_has_tic else [], self.noise(rng, avoid, n=rng.choice([0, 0, 1])))})
         # ---- groups
         def group(gid, arr_acc, dt_acc):
@@ -207,7 +247,9 @@ class C17(Prop):
 
         abort = None
         nspec = len(spectra)
-        if rng.random() < 0.4:
+        if large is not None:     # False at the first, a middle, the last, a random spectrum, or never
+            abort = rng.choice([None, 0, nspec // 2, nspec - 1, rng.randint(0, nspec - 1)])
+        elif rng.random() < 0.4:
             abort = rng.choice([0, nspec - 1, rng.randint(0, nspec - 1)])
         return {"doc": {"decl": rng.random() < 0.8, "indent": rng.choice(["", "  ", "\t", "    ", " "]),
                         "trail": rng.choice(["", "", "", " ", "\t ", "\r"]),
@@ -218,16 +260,20 @@ class C17(Prop):
     def targeted(self, tier):
         rng = random.Random(17)
         for tic in ("1.500000e+06", "-2.5E-3", "+7", "52676.000000", None):
-            c = self.generate(random.Random(5), tier)
+            c = self.gen_doc(random.Random(5), tier)
             for s in c["doc"]["spectra"]:
                 s["items"] = [] if tic is None else [cv(ACC["TIC"], tic, 1, "total ion current")]
                 s["tail"] = []
             c["abort"] = None
             yield c
         for k in range(3):
-            c = self.generate(rng, tier)
+            c = self.gen_doc(rng, tier)
             c["abort"] = k % max(1, len(c["doc"]["spectra"]))
             yield c
+        # one large document, the callback returning False never / at the first / a middle / the last / a random spectrum
+        c = self.gen_doc(random.Random(1017), tier, large=2048)
+        for ab in (None, 0, 1024, 2047, random.Random(1018).randint(1, 2046)):
+            yield {**c, "abort": ab}
 
     # ------------------------------------------------------------------ evaluation
     def materialise(self, case):
@@ -315,11 +361,20 @@ class C17(Prop):
                  "callback": {"result": canon_model(rep["fast"]), "count": len(mcalls), "non_decreasing": mcalls == sorted(mcalls)}}
 
         feats = self.features(case, doc, nspec)
+        if nspec >= LARGE_MIN:
+            feats.add("large-document")
+            feats.add("large-document:" + next(f for f in feats if f.startswith("callback:")))
+            # a whole <spectrum> block is shorter than 1/1024 of the file (progress finer than 0.1 % per spectrum)
+            ln = render_kinds(doc)
+            starts = [i for i, t in enumerate(ln) if t.startswith("<spectrum ")]
+            closes = [i for i, t in enumerate(ln) if t == "</spectrum>"]
+            if min(ends[c] - ends[o - 1] for o, c in zip(starts, closes)) * 1024 < ends[-1]:
+                feats.add("large-document:spectrum-block<size/1024")
         feats.add("callback-positions-" + ("exact" if calls == mcalls else "differ"))
         return outcome(impl, model, spec, hyp=bool(rep["layout"]), features=feats)
 
     def features(self, case, doc, nspec):
-        f = {"spectra:%s" % ("1" if nspec == 1 else "2" if nspec == 2 else "many"),
+        f = {"spectra:%s" % ("1" if nspec == 1 else "2" if nspec == 2 else "many" if nspec < LARGE_MIN else "1000+"),
              "indent:%r" % doc["indent"], "trail:%r" % doc["trail"],
              "imageable" if case["data"] is not None else "parse-only"}
         tics = [it["value"] for s in doc["spectra"] for it in s["items"] + s["tail"] if it["t"] == "cv" and it["acc"] == ACC["TIC"]]
@@ -363,7 +418,17 @@ class C17(Prop):
     def shrink(self, case):
         doc = case["doc"]
         sp = doc["spectra"]
-        if len(sp) > 1:
+        if len(sp) > 16:     # large documents: remove runs of spectra (halves, quarters, ... sixteenths) instead of single ones
+            n = len(sp)
+            for parts in (2, 4, 8, 16):
+                for k in range(parts):
+                    a, b = k * n // parts, (k + 1) * n // parts
+                    data = None if case["data"] is None else case["data"][:a] + case["data"][b:]
+                    m = n - (b - a)
+                    ab = case["abort"]
+                    yield {**case, "doc": {**doc, "spectra": sp[:a] + sp[b:]}, "data": data,
+                           "abort": None if ab is None else (ab if ab < a else ab - (b - a) if ab >= b else min(a, m - 1))}
+        elif len(sp) > 1:
             for i in range(len(sp)):
                 data = None if case["data"] is None else case["data"][:i] + case["data"][i + 1:]
                 yield {**case, "doc": {**doc, "spectra": sp[:i] + sp[i + 1:]}, "data": data,
@@ -379,11 +444,19 @@ class C17(Prop):
         def drop_noise(items, keep):
             return [it for it in items if it["t"] == "cv" and it["acc"] in keep]
 
-        for i, s in enumerate(sp):
-            t = {**s, "items": drop_noise(s["items"], READ_SPECTRUM), "scanlist": [], "tail": drop_noise(s["tail"], READ_SPECTRUM),
-                 "scans": [drop_noise(s["scans"][0], READ_SPECTRUM)], "arrays": [{**a, "extra": [], "shuffle": None} for a in s["arrays"]]}
-            if t != s:
-                yield {**case, "doc": {**doc, "spectra": sp[:i] + [t] + sp[i + 1:]}}
+        def plain(s):
+            return {**s, "items": drop_noise(s["items"], READ_SPECTRUM), "scanlist": [], "tail": drop_noise(s["tail"], READ_SPECTRUM),
+                    "scans": [drop_noise(s["scans"][0], READ_SPECTRUM)], "arrays": [{**a, "extra": [], "shuffle": None} for a in s["arrays"]]}
+
+        if len(sp) > 16:     # large documents: all spectra at once
+            ts = [plain(s) for s in sp]
+            if ts != sp:
+                yield {**case, "doc": {**doc, "spectra": ts}}
+        else:
+            for i, s in enumerate(sp):
+                t = plain(s)
+                if t != s:
+                    yield {**case, "doc": {**doc, "spectra": sp[:i] + [t] + sp[i + 1:]}}
         others = [g for g in doc["groups"] if g["id"] in ("mzArray", "intensities")]
         if len(others) < len(doc["groups"]):
             yield {**case, "doc": {**doc, "groups": others}}
